@@ -105,6 +105,83 @@ fn queries<'a, D: 'a>(l: &MinidumpMemoryListBase<'a, D>) -> Vec<Item> {
     out
 }
 
+
+fn u128p(v: u128, it: &mut Item) {
+    it.push((v >> 64) as i128);
+    it.push((v & 0xffff_ffff_ffff_ffff) as i128);
+}
+const MODELLED_ARCH: [u16; 5] = [0, 10, 9, 5, 12];
+/// [-3] no system info, [-2] architecture outside the model, [-1] no (valid) context, 1 :: every field
+/// of the parsed context in the documented declaration order (u128 as high, low halves)
+fn context_obs(sys: Option<&MinidumpSystemInfo>, ctx: impl FnOnce(&MinidumpSystemInfo) -> Option<MinidumpContext>, it: &mut Item) {
+    let sys = match sys {
+        Some(s) => s,
+        None => {
+            it.push(-3);
+            return;
+        }
+    };
+    if !MODELLED_ARCH.contains(&sys.raw.processor_architecture) {
+        it.push(-2);
+        return;
+    }
+    let c = match ctx(sys) {
+        Some(c) => c,
+        None => {
+            it.push(-1);
+            return;
+        }
+    };
+    it.push(1);
+    macro_rules! p {
+        ($($e:expr),* $(,)?) => { $( it.push($e as i128); )* };
+    }
+    match &c.raw {
+        MinidumpRawContext::X86(x) => {
+            p!(x.context_flags, x.dr0, x.dr1, x.dr2, x.dr3, x.dr6, x.dr7);
+            let f = &x.float_save;
+            p!(f.control_word, f.status_word, f.tag_word, f.error_offset, f.error_selector, f.data_offset, f.data_selector);
+            it.extend(f.register_area.iter().map(|&b| b as i128));
+            p!(f.cr0_npx_state);
+            p!(x.gs, x.fs, x.es, x.ds, x.edi, x.esi, x.ebx, x.edx, x.ecx, x.eax, x.ebp, x.eip, x.cs, x.eflags, x.esp, x.ss);
+            it.extend(x.extended_registers.iter().map(|&b| b as i128));
+        }
+        MinidumpRawContext::Amd64(x) => {
+            p!(x.p1_home, x.p2_home, x.p3_home, x.p4_home, x.p5_home, x.p6_home, x.context_flags, x.mx_csr);
+            p!(x.cs, x.ds, x.es, x.fs, x.gs, x.ss, x.eflags, x.dr0, x.dr1, x.dr2, x.dr3, x.dr6, x.dr7);
+            p!(x.rax, x.rcx, x.rdx, x.rbx, x.rsp, x.rbp, x.rsi, x.rdi, x.r8, x.r9, x.r10, x.r11, x.r12, x.r13, x.r14, x.r15, x.rip);
+            it.extend(x.float_save.iter().map(|&b| b as i128));
+            for v in x.vector_register.iter() {
+                u128p(*v, it);
+            }
+            p!(x.vector_control, x.debug_control, x.last_branch_to_rip, x.last_branch_from_rip, x.last_exception_to_rip, x.last_exception_from_rip);
+        }
+        MinidumpRawContext::Arm(x) => {
+            p!(x.context_flags);
+            it.extend(x.iregs.iter().map(|&b| b as i128));
+            p!(x.cpsr, x.float_save.fpscr);
+            it.extend(x.float_save.regs.iter().map(|&b| b as i128));
+            it.extend(x.float_save.extra.iter().map(|&b| b as i128));
+        }
+        MinidumpRawContext::Arm64(x) => {
+            p!(x.context_flags, x.cpsr);
+            it.extend(x.iregs.iter().map(|&b| b as i128));
+            p!(x.sp, x.pc);
+            for v in x.float_regs.iter() {
+                u128p(*v, it);
+            }
+            p!(x.fpcr, x.fpsr);
+            it.extend(x.bcr.iter().map(|&b| b as i128));
+            it.extend(x.bvr.iter().map(|&b| b as i128));
+            it.extend(x.wcr.iter().map(|&b| b as i128));
+            it.extend(x.wvr.iter().map(|&b| b as i128));
+        }
+        _ => {
+            it.push(-777);
+        }
+    }
+}
+
 fn observe(bytes: &[u8]) -> String {
     let dump = match Minidump::read(bytes) {
         Ok(d) => d,
@@ -181,6 +258,7 @@ fn observe(bytes: &[u8]) -> String {
                         }
                         None => it.push(-1),
                     }
+                    context_obs(sys.as_ref().ok(), |s| t.context(s, None).map(|c| c.into_owned()), &mut it);
                     it
                 })
                 .collect(),
@@ -306,6 +384,7 @@ fn observe(bytes: &[u8]) -> String {
                 if x.thread_id != r.thread_id {
                     it.push(-777);
                 }
+                context_obs(sys.as_ref().ok(), |s| x.context(s, None).map(|c| c.into_owned()), &mut it);
                 vec![it]
             }
             Err(_) => vec![],
